@@ -40,31 +40,46 @@ def check(out, ctx):
     step = max(1, len(cases) // (600 if ctx.tier == "quick" else 6000))
     sample = cases[::step] + [c for c in cases if c.g.meta.get("family") == "corpus"] + \
         [c for c in cases if len(c.inp.encode()) > 45 and any(ord(ch) > 127 for ch in c.inp)][:400]
+    # (grammar, rule, input, reference or None): the sampled stream cases, and the same inputs with a
+    # line end / blanks appended (no model answer for those: the entry points are compared with each other)
+    runs = [(c, c.inp, c.impl) for c in sample]
+    tails = ["\n", "\r\n", " ", "\t\n", "\n\n"]
+    for j, c in enumerate(sample[:: max(1, len(sample) // (300 if ctx.tier == "quick" else 3000))]):
+        runs.append((c, c.inp + tails[j % len(tails)], None))
     by_exe = collections.defaultdict(list)
-    for k, c in enumerate(sample):
+    for k, (c, inp, ref) in enumerate(runs):
         by_exe[st["exes"][c.g.gid]].append(k)
     compared = 0
+    entry_points = 0
     for exe, ks in by_exe.items():
         reqs = []
         for k in ks:
-            c = sample[k]
-            for mode in ("noop", "indent"):
-                reqs.append("parse\t%s\t%s\t%s\t%s" % (c.g.gid, c.rule.encode().hex(), c.inp.encode().hex(), mode))
-        res = genrun.pipe_resilient(exe, reqs)
-        for i, k in enumerate(ks):
-            c = sample[k]
-            a, b = stream.parse_impl(res[2 * i]), stream.parse_impl(res[2 * i + 1])
+            c, inp, ref = runs[k]
+            modes = ("noop", "indent") if c.g.ctx else ("noop", "indent", "pub", "pubtrace")
+            for mode in modes:
+                reqs.append((k, mode, "parse\t%s\t%s\t%s\t%s" % (c.g.gid, c.rule.encode().hex(), inp.encode().hex(), mode)))
+        res = genrun.pipe_resilient(exe, [r[2] for r in reqs])
+        got = collections.defaultdict(dict)
+        for (k, mode, _), r in zip(reqs, res):
+            got[k][mode] = stream.parse_impl(r)
+        for k in ks:
+            c, inp, ref = runs[k]
             compared += 1
 
             def core(r):
-                return (r["k"], r.get("tree"), r.get("pos"), r.get("spec"))
-            if not (core(a) == core(b) == core(c.impl)):
-                out.violation("c19same:%s:%s:%s" % (c.g.gid, c.rule, c.inp.encode().hex()),
-                              "parse, parse with a recording tracer and parse_with_trace disagree on %r" % c.inp,
-                              common.case_payload(c, st, noop=a, indented=b))
+                return repr((r["k"], r.get("tree"), r.get("pos"), r.get("spec")))
+            cores = {m: core(r) for m, r in got[k].items()}
+            if ref is not None:
+                cores["recording"] = core(ref)
+            entry_points += len(cores)
+            if len(set(cores.values())) != 1:
+                out.violation("c19same:%s:%s:%s" % (c.g.gid, c.rule, inp.encode().hex()),
+                              "parse (NoopTracer), the recording tracer, IndentedTracer, PegParser::parse and PegParser::parse_with_trace disagree on %r: %s"
+                              % (inp, "; ".join("%s=%s" % (m, str(v)[:80]) for m, v in sorted(cores.items()))),
+                              common.case_payload(c, st, input_run=inp, results={m: got[k][m] for m in got[k]}))
     common.stream_coverage(out, st, cases,
                            "whole stream with the recording tracer; a sample re-run with NoopTracer and the real IndentedTracer; non-trivial = at least 3 rule entries in the trace; distinct by (grammar, rule, input)",
                            lambda c: c.impl.get("trace", "").count("S:") >= 3,
-                           {"model_vs_implementation_disagreements": bad, "noop_vs_indented_compared": compared,
+                           {"model_vs_implementation_disagreements": bad, "noop_vs_indented_compared": compared, "entry_point_results_compared": entry_points,
                             "traces_with_cache_hit": sum(1 for c in cases if "I:0" in c.impl.get("trace", "")),
                             "traces_with_leftrec_loop": sum(1 for c in cases if "I:2" in c.impl.get("trace", ""))})
